@@ -255,6 +255,12 @@ def _verus_pass(rs, meta, sel, tag, rlimit):
                 'anchor': where['anchor'] if where else None, 'text': text[:6000]}
         if e['kind'] != 'error' or e['kind'].startswith('error[') or UNDECIDED_PAT.search(e['msg']):
             undecided.append(item)
+        elif where and where['id'] in (meta.get('new_closures') or []):
+            # the function now contains a closure it did not have when its contract was written: Verus knows nothing about an
+            # exec closure without a spec, so a failed proof here says nothing about the code (refactoring to combinator
+            # style is the typical cause) -- undecided, unless a Kani twin holds a counterexample
+            item['msg'] = 'proof failed in a function that gained a closure without a specification (%s)' % e['msg']
+            undecided.append(item)
         elif e['kind'] == 'error' and re.search(r'postcondition|precondition|assertion|invariant|decreases|overflow|underflow|bounds|index|unreach|arithmetic|division|recommend|callee.requires|termination|may be out of range|not satisfied|failed', e['msg']):
             failures.append(item)
         else:
